@@ -39,7 +39,8 @@ def required_cells(tier):
             'style:google', 'style:freeform', 'style:auto', 'verbose:0', 'verbose:1', 'verbose:2', 'verbose:3',
             'cli:exit0', 'cli:exit1', 'cli:list', 'mix:only-skipped', 'mix:last-fails', 'mix:disabled+failing',
             'printed-failed-list:empty', 'printed-failed-list:one', 'printed-failed-list:several',
-            'module-import-fails'])
+            'module-import-fails', 'cmd:named-one-of-several-in-a-docstring:0',
+            'cmd:named-one-of-several-in-a-docstring:1'])
 
 
 def read_marks(path):
@@ -200,7 +201,10 @@ def check_module(ctx, idx, seed, cli=False):
         # ------------------------------------------------------------ named
         ctx.evaluation()
         t = rng.choice(om.tests)
-        if any(x['outcome'] == 'disabled' for x in om.tests) and rng.random() < 0.5:
+        multi = [x for x in om.tests if sum(1 for y in om.tests if y['callname'] == x['callname']) > 1]
+        if multi and rng.random() < 0.7:
+            t = rng.choice(multi)
+        elif any(x['outcome'] == 'disabled' for x in om.tests) and rng.random() < 0.5:
             t = rng.choice([x for x in om.tests if x['outcome'] == 'disabled'])
         if os.path.exists(markfile):
             os.unlink(markfile)
@@ -226,6 +230,8 @@ def check_module(ctx, idx, seed, cli=False):
             ok = False
         else:
             ctx.cell('cmd:named-disabled' if t['outcome'] == 'disabled' else 'cmd:named')
+            if sum(1 for x in om.tests if x['callname'] == t['callname']) > 1:
+                ctx.cell('cmd:named-one-of-several-in-a-docstring:%s' % t['ident'].split(':')[-1])
         # ------------------------------------------------------------ list
         ctx.evaluation()
         b = io.StringIO()
